@@ -108,6 +108,16 @@ CLAIMED = {
               'not yet covered; the unchecked loader was a defect, fixed'),
         technique='CBMC memory-safety checking of the TZif loader on symbolic file images',
         design='3/C19'),
+    'C17': dict(
+        text=('Bounded model checking of src/dexpr.c: for each enumerated expression tree (all trees with <= 2 leaves '
+              'and every negation placement, selected/all 3-leaf trees, 4-leaf distribution cases) and symbolic atoms '
+              '(six operators, year specifier or date literal) and line value, matches(simplify(T), v) equals the '
+              'Boolean/comparison reference with the line value as left operand, and free_dexpr releases no node twice.'),
+        note=('flex/bison front end not encoded (trees built as the grammar builds them); calloc/free replaced by a typed '
+              'node pool; the two unions of dexpr.h declared as structs for the solver only (real layout in replay); '
+              'four defects found and fixed'),
+        technique='CBMC bounded model checking per expression tree (program enumerated, inputs symbolic)',
+        design='3/C17'),
 }
 
 NA = {}
